@@ -157,7 +157,6 @@ def encrypt(x32, Y, msg32, noncefn, C=SECP, trace=None):
     """Adaptor-sign msg32 under secret key x32 for encryption key Y.
     noncefn(msg32, key32, pk33, algo) -> 32 bytes or None.  Returns the 162 bytes or None (failure)."""
     n = C.n
-    ok = True
     args = (bytes(msg32), bytes(x32), ser33(C, Y), ALGO_ADAPTOR)
     if trace is not None:
         trace.append(args)
